@@ -137,7 +137,9 @@ CHECKS = {
        'bytes (plus the one-character-authzid shape at 5 bytes) through the instrumented pysasl PLAIN mechanism and the ASCII-exact SASLprep '
        'model, followed by a LIST probe: authenticated and acting as exactly the identity RFC 4616 + the property allow for those bytes. '
        'lookalike_accounts: two accounts whose names differ by one arbitrary code point, the owner of one asks to act as the other, with '
-       'the real SASLprep step modelled (ASCII exact, RFC 3454 B.1 "mapped to nothing" exact).',
+       'the real SASLprep step modelled (ASCII exact, RFC 3454 B.1 "mapped to nothing" exact). sasl_plain_malformed_base64: valid '
+       'credentials in base64 with 1 (quick) / 1-2 (thorough) symbolic bytes from outside the alphabet at any position leave the connection '
+       'unauthenticated.',
   note=TRUST + 'Stubs: hash = cleartext compare, secrets.compare_digest = equality; in the attempts harness password_prep = identity and '
        'the SASL mechanism hands arbitrary credentials to do_authenticate. Outside: password hashing, the LOGIN SASL mechanism, ManageSieve '
        '(ignores the authzid), maildir/redis user stores.',
